@@ -395,10 +395,14 @@ func runCheck() int {
 		ctrlSummary = append(ctrlSummary, s)
 	}
 
-	// thorough: self-validation sweep over stored mutations + seeded patches
-	var sweep []map[string]any
+	// thorough: self-validation sweep over stored mutations + seeded patches,
+	// cross-reference with generic tools
+	var sweep, xref []map[string]any
 	if tier == "thorough" {
 		sweep, problems = runSweep(id, spec, problems)
+		var xp []string
+		xref, xp = crossRef(p, id, all)
+		problems = append(problems, xp...)
 	}
 
 	// verdict
@@ -472,6 +476,9 @@ func runCheck() int {
 	}
 	if sweep != nil {
 		ev.Coverage["self_validation_sweep"] = sweep
+	}
+	if xref != nil {
+		ev.Coverage["cross_reference"] = xref
 	}
 	if err := writeJSON(evPath, ev); err != nil {
 		fmt.Fprintln(os.Stderr, "evidence:", err)
